@@ -99,6 +99,45 @@ pub fn generate(a: &Args) {
         ev["text"] = json!(String::from_utf8_lossy(&r.stdout).trim().to_string()); ev["out_sha"] = json!(""); ev["lib"] = lib.clone();
         out.ev("Gen", "ok", ev);
     }
+    // girth "when asked" for other codes: the printed value against oracles that do not use the library's girth search - the exact
+    // 4-cycle test of codes.rs on the matrix printed WITHOUT --girth, and (peg, small) the exact girth computed by TLC (Tanner.tla)
+    let girth_runs: Vec<Vec<String>> = if th {
+        vec![vec![s("ccsds"), s("--rate"), s("2/3"), s("--block-size"), s("1024")], vec![s("ccsds"), s("--rate"), s("4/5"), s("--block-size"), s("1024")],
+             vec![s("ccsds"), s("--rate"), s("2/3"), s("--block-size"), s("4096")], vec![s("ccsds"), s("--rate"), s("4/5"), s("--block-size"), s("4096")],
+             vec![s("dvbs2"), s("--rate"), s("1/4"), s("--short")], vec![s("dvbs2"), s("--rate"), s("8/9"), s("--short")], vec![s("ccsds-c2")]]
+    } else {
+        vec![vec![s("ccsds"), s("--rate"), s("4/5"), s("--block-size"), s("1024")], vec![s("ccsds"), s("--rate"), s("4/5"), s("--block-size"), s("4096")],
+             vec![s("dvbs2"), s("--rate"), s("8/9"), s("--short")]]
+    };
+    let printed_girth = |text: &str| -> i64 { text.lines().find_map(|l| l.trim().strip_prefix("Code girth = ").map(|x| x.trim().parse::<i64>().unwrap_or(-1))).unwrap_or(-2) };
+    for base in girth_runs {
+        out.new_case();
+        let plain = run_cli(&work, &base, 600);
+        let h = std::str::from_utf8(&plain.stdout).ok().and_then(|t| SparseMatrix::from_alist(t).ok());
+        let mut args = base.clone(); args.push(s("--girth"));
+        let r = run_cli(&work, &args, 900);
+        let mut ev = base_ev(&args, &r);
+        ev["printed"] = json!(printed_girth(&String::from_utf8_lossy(&r.stdout)));
+        ev["parsed"] = json!(h.is_some());
+        ev["four_cycle"] = json!(h.as_ref().map(|h| crate::codes::has_four_cycle(h)).unwrap_or(false));
+        ev["cyc6"] = json!(h.as_ref().map(|h| crate::codes::six_cycle(h)).unwrap_or_default());
+        ev["small"] = json!(false); ev["rows"] = json!([]); ev["nr"] = json!(0); ev["nc"] = json!(0);
+        out.ev("Girth", "ok", ev);
+    }
+    for i in 0..(if th { 40 } else { 12 }) {
+        out.new_case();
+        let (nr, nc, wc, seed) = (3 + i % 4, 5 + i % 6, 2 + i % 2, rng.next() % 1000);
+        let args = vec![s("peg"), nr.to_string(), nc.to_string(), wc.to_string(), seed.to_string(), s("--girth")];
+        let r = run_cli(&work, &args, 60);
+        let h = std::str::from_utf8(&r.stdout).ok().and_then(|t| SparseMatrix::from_alist(t).ok());
+        let mut ev = base_ev(&args, &r);
+        let so = r.stderr.clone();
+        ev["printed"] = json!(if so.contains("infinity") { -1 } else { printed_girth(&so) });
+        ev["parsed"] = json!(h.is_some());
+        ev["four_cycle"] = json!(false); ev["cyc6"] = json!([]);
+        ev["small"] = json!(true); ev["rows"] = json!(h.as_ref().map(|h| rows_of(h)).unwrap_or_default()); ev["nr"] = json!(nr); ev["nc"] = json!(nc);
+        out.ev("Girth", "ok", ev);
+    }
     // peg / mackay-neal: stdout must parse to the matrix the library's run(seed) returns
     for i in 0..(if th { 40 } else { 10 }) {
         out.new_case();
